@@ -101,6 +101,16 @@ type Service struct {
 	// against the stop path.
 	publishMu sync.Mutex
 
+	// opLocks serializes, per pipeline, the decision to start a run: Start
+	// (from the status check until the new run is published) and the recovery
+	// restart's "was I stopped or superseded in the meantime?" check together
+	// with the Start it leads to. Without it a user's Start and the recovery's
+	// could both pass the status check and run the pipeline twice, on the same
+	// connector instances. Stop never takes it: a stop must not wait for a
+	// Start that is still announcing its run.
+	opLocksMu sync.Mutex
+	opLocks   map[string]*sync.Mutex
+
 	// terminalErrors holds the terminal error of a pipeline after it has stopped
 	// and been removed from runningPipelines, so WaitPipeline can still report it
 	// to a caller that races the pipeline's own cleanup. Written before the
@@ -212,6 +222,33 @@ func (s *Service) Start(
 	ctx context.Context,
 	pipelineID string,
 ) error {
+	defer s.lockPipeline(pipelineID)()
+	return s.start(ctx, pipelineID)
+}
+
+// lockPipeline takes the per-pipeline operation lock (see opLocks) and returns
+// the function that releases it.
+func (s *Service) lockPipeline(pipelineID string) (unlock func()) {
+	s.opLocksMu.Lock()
+	if s.opLocks == nil {
+		s.opLocks = make(map[string]*sync.Mutex)
+	}
+	m, ok := s.opLocks[pipelineID]
+	if !ok {
+		m = &sync.Mutex{}
+		s.opLocks[pipelineID] = m
+	}
+	s.opLocksMu.Unlock()
+	m.Lock()
+	return m.Unlock
+}
+
+// start is Start without taking the per-pipeline operation lock; the caller
+// holds it.
+func (s *Service) start(
+	ctx context.Context,
+	pipelineID string,
+) error {
 	pl, err := s.pipelines.Get(ctx, pipelineID)
 	if err != nil {
 		return err
@@ -297,6 +334,10 @@ func (s *Service) StartWithBackoff(ctx context.Context, rp *runnablePipeline) er
 	}
 
 	verifhook.Point("lifecycle.recover.backoff-elapsed")
+	// The checks below and the restart they lead to are one step with respect
+	// to a concurrent Start of this pipeline.
+	defer s.lockPipeline(rp.pipeline.ID)()
+
 	// The user may have stopped or restarted the pipeline while we were waiting.
 	actualRp, ok := s.runningPipelines.Get(rp.pipeline.ID)
 	if !ok || actualRp != rp {
@@ -309,7 +350,7 @@ func (s *Service) StartWithBackoff(ctx context.Context, rp *runnablePipeline) er
 		return cerrors.FatalError(pipeline.ErrForceStop)
 	}
 
-	return s.Start(ctx, rp.pipeline.ID)
+	return s.start(ctx, rp.pipeline.ID)
 }
 
 // Stop will attempt to gracefully stop a given pipeline by calling each node's
